@@ -9,6 +9,11 @@ p = next(json.loads(l) for l in open('/verif/properties.jsonl') if json.loads(l)
 taken = []
 for md in sorted(glob.glob(f'/verif/seeded/{prop}-*/meta.json')):
     taken.append(json.load(open(md))['summary'])
+# changes stored for OTHER properties are listed too (shortened): the same mechanism is often reachable from several properties
+if len(sys.argv) > 3 and sys.argv[3] == 'all':
+    for md in sorted(glob.glob('/verif/seeded/*/meta.json')):
+        if f'/{prop}-' in md: continue
+        taken.append(json.load(open(md))['summary'][:260])
 tmpl = open('/tmp/seed/r7-C06.prompt.txt').read() if os.path.exists('/tmp/seed/r7-C06.prompt.txt') else open('/verif/tools/seedprompt.tmpl').read()
 head, rest = tmpl.split('-----\n', 1)
 _, rest = rest.split('-----\n', 1)
